@@ -9,6 +9,7 @@
   and are then specialised to `genCfg`, so the statement that holds is decided by the current source.
 -/
 import GormModel.Lemmas.Upsert
+import GormModel.Model.UpsertClause
 namespace Gorm
 open Gorm.Upsert
 
@@ -823,5 +824,236 @@ example : visible c16Schema (fun c => if c = 0 then 1 else 2) = true := by decid
 example : ∃ old, c16OneRow.rows (targetKey c16OneRow (fun c => if c = 0 then 1 else 2)) = some old := ⟨_, rfl⟩
 example : firstMatch c16Schema c16OneRow [.eq 1 1] ≠ none := by decide
 example : firstMatch c16Schema c16OneRow [.eq 1 2] = none := by decide
+
+
+/-! ## Round 2 — every field of `clause.OnConflict` through gorm's rewriting; Save under Select / Omit -/
+
+
+/-- **The UpdateAll expansion changes ONLY `DoUpdates`** — plus the two documented defaults: an empty conflict
+    target becomes the primary key, an empty SET list turns the rule into DO NOTHING. `Where` (the DO UPDATE guard),
+    `TargetWhere` (partial-index predicate), `OnConstraint` and `UpdateAll` come out as they went in, the caller's own
+    assignments stay in front, a non-empty target and a set `DoNothing` are kept. For every schema, source, inserted
+    column set and clause. -/
+theorem C16_expand_only_doUpdates (sch : Schema) (src : Src) (ins : Nat → Bool) (hasCols : Bool) (oc : OC) :
+    (oc.expand sch src ins hasCols).where_ = oc.where_ ∧
+    (oc.expand sch src ins hasCols).targetWhere = oc.targetWhere ∧
+    (oc.expand sch src ins hasCols).onConstraint = oc.onConstraint ∧
+    (oc.expand sch src ins hasCols).updateAll = oc.updateAll ∧
+    (oc.columns ≠ [] → (oc.expand sch src ins hasCols).columns = oc.columns) ∧
+    (oc.columns = [] → (oc.expand sch src ins hasCols).columns = [] ∨ (oc.expand sch src ins hasCols).columns = pkCols sch) ∧
+    (oc.doNothing = true → (oc.expand sch src ins hasCols).doNothing = true) ∧
+    (∃ extra, (oc.expand sch src ins hasCols).doUpdates = oc.doUpdates ++ extra) ∧
+    ((oc.expand sch src ins hasCols).doNothing = true → oc.doNothing = true ∨ (oc.expand sch src ins hasCols).doUpdates = []) := by
+  by_cases h : (oc.updateAll && hasCols) = true
+  · have e : oc.expand sch src ins hasCols =
+        { oc with
+          doUpdates := oc.doUpdates ++ expandUpdates sch src ins,
+          doNothing := if (oc.doUpdates ++ expandUpdates sch src ins).isEmpty then true else oc.doNothing,
+          columns := if oc.columns.isEmpty then pkCols sch else oc.columns } := by
+      simp only [OC.expand, h, if_true]
+    rw [e]
+    refine ⟨rfl, rfl, rfl, rfl, ?_, ?_, ?_, ⟨_, rfl⟩, ?_⟩
+    · intro hc
+      cases hcs : oc.columns with
+      | nil => exact absurd hcs hc
+      | cons a l => simp
+    · intro hc; right; simp [hc]
+    · intro hd
+      by_cases he : (oc.doUpdates ++ expandUpdates sch src ins).isEmpty = true <;> simp [he, hd]
+    · intro hd
+      by_cases he : (oc.doUpdates ++ expandUpdates sch src ins).isEmpty = true
+      · right; simpa using he
+      · left; simpa [he] using hd
+  · have e : oc.expand sch src ins hasCols = oc := by simp only [OC.expand, h]; simp
+    rw [e]
+    exact ⟨rfl, rfl, rfl, rfl, fun _ => rfl, fun hc => Or.inl hc, fun hd => hd, ⟨[], by simp⟩, fun hd => Or.inl hd⟩
+
+/-- a clause that does not ask for UpdateAll is not rewritten at all -/
+theorem C16_expand_noop (sch : Schema) (src : Src) (ins : Nat → Bool) (hasCols : Bool) (oc : OC)
+    (h : oc.updateAll = false) : oc.expand sch src ins hasCols = oc := by
+  simp [OC.expand, h]
+
+/-- `DO UPDATE SET … WHERE guard`: when the guard is false for the conflicting row, the row stays exactly as stored -/
+theorem C16_guard_false_keeps_row (oc : OC) (o p : Row) (h : guardsHold o p oc.where_ = false) :
+    oc.onRow o p = o := by
+  unfold OC.onRow
+  by_cases hd : oc.doNothing = true <;> simp [hd, h]
+
+theorem C16_do_nothing_keeps_row (oc : OC) (o p : Row) (h : oc.doNothing = true) : oc.onRow o p = o := by
+  simp [OC.onRow, h]
+
+/-- … and through gorm's rewriting: an UpdateAll rule that carries a guard leaves a conflicting row for which the
+    guard is false untouched (the stale-write rule `excluded.version > table.version`) -/
+theorem C16_expand_guard_survives (sch : Schema) (src : Src) (ins : Nat → Bool) (hasCols : Bool) (oc : OC) (o p : Row)
+    (h : guardsHold o p oc.where_ = false) : upsertRow sch src ins hasCols oc o p = o := by
+  unfold upsertRow
+  apply C16_guard_false_keeps_row
+  have := (C16_expand_only_doUpdates sch src ins hasCols oc).1
+  simpa [this] using h
+
+theorem setTerms_untouched (o p : Row) (l : List (Nat × Term)) (r : Row) (c : Nat)
+    (h : ∀ a ∈ l, a.1 ≠ c) : setTerms o p l r c = r c := by
+  induction l generalizing r with
+  | nil => rfl
+  | cons a rest ih =>
+    simp only [setTerms]
+    rw [ih]
+    · have : a.1 ≠ c := h a (by simp)
+      simp [setCol, Ne.symm this]
+    · intro b hb; exact h b (by simp [hb])
+
+theorem setTerms_last (o p : Row) (l : List (Nat × Term)) (a : Nat × Term) (r : Row) :
+    setTerms o p (l ++ [a]) r a.1 = a.2.eval o p := by
+  induction l generalizing r with
+  | nil => simp [setTerms, setCol]
+  | cons b rest ih => simp only [List.cons_append, setTerms]; exact ih _
+
+/-- when the guard holds (and the rule is not DO NOTHING) the row left behind is what the SET list defines: a column
+    no assignment names keeps its stored value; right-hand sides are evaluated against the stored row and `excluded` -/
+theorem C16_guard_true_applies (oc : OC) (o p : Row) (hd : oc.doNothing = false) (h : guardsHold o p oc.where_ = true) :
+    oc.onRow o p = setTerms o p oc.doUpdates o ∧
+    ∀ c, (∀ a ∈ oc.doUpdates, a.1 ≠ c) → oc.onRow o p c = o c := by
+  have e : oc.onRow o p = setTerms o p oc.doUpdates o := by simp [OC.onRow, hd, h]
+  exact ⟨e, fun c hc => by rw [e]; exact setTerms_untouched o p _ o c hc⟩
+
+/-- the rightmost assignment of a column wins (SQLite: "all but the rightmost occurrence is ignored") — this is what
+    makes a caller's `DoUpdates` entry lose against the UpdateAll expansion of the same column -/
+theorem C16_rightmost_assignment_wins (oc : OC) (o p : Row) (l : List (Nat × Term)) (a : Nat × Term)
+    (hu : oc.doUpdates = l ++ [a]) (hd : oc.doNothing = false) (h : guardsHold o p oc.where_ = true) :
+    oc.onRow o p a.1 = a.2.eval o p := by
+  rw [(C16_guard_true_applies oc o p hd h).1, hu]; exact setTerms_last o p l a o
+
+/-- rendering (on_conflict.go Build): the guard is the tail of the clause, whatever the other fields hold — and the
+    clause gorm re-adds after the UpdateAll expansion ends with the SAME guard tokens -/
+theorem C16_render_guard_tail (sch : Schema) (src : Src) (ins : Nat → Bool) (hasCols : Bool) (oc : OC) :
+    ∃ front, (oc.expand sch src ins hasCols).render = front ++ renderWhere oc.where_ ∧
+      (oc.where_ ≠ [] → renderWhere oc.where_ = "WHERE" :: oc.where_.map Guard.tok) := by
+  refine ⟨renderTarget (oc.expand sch src ins hasCols) ++ renderAction (oc.expand sch src ins hasCols), ?_, ?_⟩
+  · have := (C16_expand_only_doUpdates sch src ins hasCols oc).1
+    simp only [OC.render]
+    rw [show (oc.expand sch src ins hasCols).where_ = oc.where_ from this]
+  · intro h
+    cases hw : oc.where_ with
+    | nil => exact absurd hw h
+    | cons g gs => simp [renderWhere]
+
+/-- a named constraint or a target + partial-index predicate is rendered from the fields the caller set -/
+theorem C16_render_target_kept (sch : Schema) (src : Src) (ins : Nat → Bool) (hasCols : Bool) (oc : OC)
+    (hc : oc.columns ≠ []) : renderTarget (oc.expand sch src ins hasCols) = renderTarget oc := by
+  have h := C16_expand_only_doUpdates sch src ins hasCols oc
+  simp only [renderTarget]
+  rw [show (oc.expand sch src ins hasCols).onConstraint = oc.onConstraint from h.2.2.1,
+      show (oc.expand sch src ins hasCols).targetWhere = oc.targetWhere from h.2.1,
+      show (oc.expand sch src ins hasCols).columns = oc.columns from h.2.2.2.2.1 hc]
+
+/-- the regenerated shape of the CURRENT tree's UpdateAll block: it assigns only Columns / DoNothing / DoUpdates and
+    hands back a value that still carries every other field; and `Build` reads every field but the `UpdateAll` flag -/
+theorem C16_gen_expand_keeps_fields :
+    Gen.ocExpandFound = true ∧
+    (∀ f ∈ Gen.ocFields, f ∉ ["Columns", "DoNothing", "DoUpdates"] → genFieldSurvives f = true) ∧
+    (∀ f ∈ Gen.ocFields, f ≠ "UpdateAll" → genFieldRendered f = true) ∧
+    ["Where", "TargetWhere", "OnConstraint"].all Gen.ocFields.contains = true := by
+  decide
+
+/-- what a rewriting that drops the guard would do: the stale write goes through -/
+def c16StaleOC : OC :=
+  { columns := [0], where_ := [⟨.exc 1, .gt, .old 1⟩], targetWhere := [], onConstraint := "", doNothing := false,
+    doUpdates := [(1, .exc 1), (2, .exc 2)], updateAll := true }
+
+theorem C16_guard_dropped_counterexample :
+    let o : Row := fun c => if c = 0 then 1 else 3
+    let p : Row := fun c => if c = 0 then 1 else 2
+    (c16StaleOC.onRow o p) 2 = 3 ∧ ({ c16StaleOC with where_ := [] }.onRow o p) 2 = 2 := by
+  decide
+
+/-! ### Save under Select / Omit -/
+
+/-- the CURRENT tree: `selectedUpdate` looks at Statement.Selects only; "*" is appended and the upsert fallback is
+    taken exactly when it is false -/
+theorem C16_gen_save_selected_by_selects_only :
+    genSaveCfg = { selBySelects := true, selByOmits := false } ∧
+    Gen.saveStarGuard = "!selectedUpdate" ∧
+    Gen.saveFallbackGuard = "updateTx.Error == nil && updateTx.RowsAffected == 0 && !updateTx.DryRun && !selectedUpdate" := by
+  decide
+
+def Upsert.SaveCfg.selectsOnly (cfg : SaveCfg) : Prop := cfg.selBySelects = true ∧ cfg.selByOmits = false
+
+/-- An Omit never makes a Save "selected": with no Select on the chain, every column except the omitted ones is in the
+    SET list — zero values included — and the primary key never is. -/
+theorem C16_save_omit_assigns_all_but_omitted (sch : Schema) (om : List Nat) (v : Row) (c : Nat) :
+    updAssigned sch true [] om v c = (sch.kind c != .pk && !om.contains c) := by
+  unfold updAssigned
+  cases hk : sch.kind c <;> simp
+
+/-- Save under `Omit(…)` (columns and / or `clause.Associations`), key present and live: ONE update, and the stored row
+    holds the caller's value in every column that is neither omitted nor the key — zero values included —, the omitted
+    columns keep what the table had, no other row changes. For every tree whose `selectedUpdate` reads Selects only. -/
+theorem C16_save_omit_live_stores_unomitted (cfg : SaveCfg) (hc : cfg.selectsOnly) (sch : Schema) (s : Store)
+    (om : List Nat) (other : Bool) (v old : Row) (hz : v 0 ≠ 0) (hex : s.rows (v 0) = some old)
+    (hv : visible sch old = true) (hany : (List.range sch.ncols).any (updAssigned sch true [] om v) = true) :
+    (saveFrom cfg sch s { star := false, sel := [], om := om, omitOther := other } v).err = .ok ∧
+    (saveFrom cfg sch s { star := false, sel := [], om := om, omitOther := other } v).ra = 1 ∧
+    ∃ r, (saveFrom cfg sch s { star := false, sel := [], om := om, omitOther := other } v).store.rows (v 0) = some r ∧
+      (∀ c, sch.kind c ≠ .pk → sch.kind c ≠ .autoUpdate → om.contains c = false → r c = v c) ∧
+      (∀ c, om.contains c = true → r c = old c) ∧
+      (∀ c, sch.kind c = .pk → r c = old c) ∧
+      ∀ j, j ≠ v 0 →
+        (saveFrom cfg sch s { star := false, sel := [], om := om, omitOther := other } v).store.rows j = s.rows j := by
+  obtain ⟨h1, h2⟩ := hc
+  have e : saveFrom cfg sch s { star := false, sel := [], om := om, omitOther := other } v =
+      { store := s.put (v 0) (fun c => if updAssigned sch true [] om v c
+            then (if (updAssigned sch true [] om v c && sch.kind c == .autoUpdate) then NOW else v c) else old c),
+        val := fun c => if (updAssigned sch true [] om v c && sch.kind c == .autoUpdate) then NOW else v c,
+        ra := 1, err := .ok } := by
+    simp [saveFrom, hz, saveSelected, h1, h2, hex, hv, hany]
+  rw [e]
+  refine ⟨rfl, rfl, (fun c => if updAssigned sch true [] om v c
+            then (if (updAssigned sch true [] om v c && sch.kind c == .autoUpdate) then NOW else v c) else old c),
+    by simp [Store.put], ?_, ?_, ?_, ?_⟩
+  · intro c hp ha ho
+    have ho' : c ∉ om := by simpa using ho
+    have : updAssigned sch true [] om v c = true := by
+      rw [C16_save_omit_assigns_all_but_omitted]; simp [hp, ho']
+    have hau : (sch.kind c == ColKind.autoUpdate) = false := by simpa using ha
+    simp [this, hau]
+  · intro c ho
+    have ho' : c ∈ om := by simpa using ho
+    have : updAssigned sch true [] om v c = false := by
+      rw [C16_save_omit_assigns_all_but_omitted]; simp [ho']
+    simp [this]
+  · intro c hp
+    have : updAssigned sch true [] om v c = false := by
+      rw [C16_save_omit_assigns_all_but_omitted]; simp [hp]
+    simp [this]
+  · intro j hj
+    simp [Store.put, hj]
+
+/-- … key absent: the UPDATE matches nothing and Save FALLS BACK to the upsert of everything but the omitted columns
+    (`C16_partial_absent_inserts` then says which row appears) — an Omit never turns the fallback off -/
+theorem C16_save_omit_absent_upserts (cfg : SaveCfg) (hc : cfg.selectsOnly) (sch : Schema) (s : Store)
+    (om : List Nat) (other : Bool) (v : Row) (hz : v 0 ≠ 0) (hex : s.rows (v 0) = none) :
+    saveFrom cfg sch s { star := false, sel := [], om := om, omitOther := other } v =
+      insertFrom sch s (some .updateAll) (.struct [] om)
+        (fun c => if (updAssigned sch true [] om v c && sch.kind c == .autoUpdate) then NOW else v c) := by
+  obtain ⟨h1, h2⟩ := hc
+  simp [saveFrom, hz, saveSelected, h1, h2, hex]
+
+/-- the current tree is in that case -/
+theorem C16_gen_save_cfg_selects_only : genSaveCfg.selectsOnly := by
+  constructor <;> decide
+
+/-- what a `selectedUpdate` that also looks at Omits would break: `Omit(clause.Associations).Save(&v)` with a field
+    reset to zero keeps the old contents, and a value whose key is missing is not stored at all -/
+def c16OmitSelCfg : SaveCfg := { selBySelects := true, selByOmits := true }
+def c16SaveSchema : Schema := { ncols := 3, kind := fun c => if c = 0 then .pk else .plain }
+def c16SaveStore : Store := { rows := fun k => if k = 1 then some (fun c => if c = 0 then 1 else 5) else none, next := 2 }
+def c16OmitAssoc : Mods := { star := false, sel := [], om := [], omitOther := true }
+
+theorem C16_save_omit_selected_counterexample :
+    ((saveFrom c16OmitSelCfg c16SaveSchema c16SaveStore c16OmitAssoc (fun c => if c = 0 then 1 else if c = 1 then 7 else 0)).store.rows 1).map (fun r => (r 1, r 2)) = some (7, 5) ∧
+    ((saveFrom genSaveCfg c16SaveSchema c16SaveStore c16OmitAssoc (fun c => if c = 0 then 1 else if c = 1 then 7 else 0)).store.rows 1).map (fun r => (r 1, r 2)) = some (7, 0) ∧
+    ((saveFrom c16OmitSelCfg c16SaveSchema c16SaveStore c16OmitAssoc (fun c => if c = 0 then 2 else 7)).store.rows 2).isSome = false ∧
+    ((saveFrom genSaveCfg c16SaveSchema c16SaveStore c16OmitAssoc (fun c => if c = 0 then 2 else 7)).store.rows 2).isSome = true := by
+  decide
 
 end Gorm
